@@ -114,15 +114,22 @@ func (d *rdrv) Step(line string) string {
 			after += len(d.f.PeerQueue(p).Events())
 		}
 		return fmt.Sprintf("hookcalls=%d queued=%d", d.hookCalls-calls, after-before)
-	case (f[0] == "pub" || f[0] == "pubd") && len(f) == 3: // pubd: the client's PUBLISH carries DUP=1 (a retransmission the broker sees for the first time)
+	case (f[0] == "pub" || f[0] == "pubd" || f[0] == "wpub") && len(f) == 3: // wpub: a will message (OnWillPublishWrapper); pubd: the client's PUBLISH carries DUP=1 (a retransmission the broker sees for the first time)
 		before := map[string]int{}
 		for _, p := range d.f.Peers() {
 			before[p] = len(d.f.PeerQueue(p).Events())
 		}
 		msg := &gmqtt.Message{Topic: opt(f[1]), Retained: f[2] == "1", Payload: []byte("x"), QoS: 1, Dup: f[0] == "pubd"}
-		dropped, opts, err := d.f.HookMsgArrived("pubclient", msg)
-		if err != nil {
-			return "err"
+		var dropped bool
+		var opts subscription.IterationOptions
+		if f[0] == "wpub" {
+			dropped, opts = d.f.HookWillPublish("pubclient", msg)
+		} else {
+			var err error
+			dropped, opts, err = d.f.HookMsgArrived("pubclient", msg)
+			if err != nil {
+				return "err"
+			}
 		}
 		var targets []string
 		for _, p := range d.f.Peers() {
